@@ -460,8 +460,26 @@ def N_same_size(kinds, length):
         got = True
     except VerifyException:
         got = False
+    except Exception as e:  # noqa: BLE001  (verification must accept or raise VerifyException, nothing else)
+        return {"definition kinds": kinds, "operands": length, "verify raised": f"{type(e).__name__}: {str(e)[:120]}", "a legal split exists": exp}
     if got != exp:
         return {"definition kinds": kinds, "operands": length, "verify accepted": got, "a legal split exists": exp}
+    if got:
+        # the accessors of a VERIFIED op return the segments of the (unique) legal split, in order
+        sz = (length - fixed) // nvar if nvar else 0
+        pos = 0
+        for j, k in enumerate(kinds):
+            n = 1 if k == SINGLE else sz
+            want = list(op.operands[pos:pos + n])
+            try:
+                v = getattr(op, f"o{j}")
+            except Exception as e:  # noqa: BLE001  (an accessor of a VERIFIED op must not raise)
+                return {"definition kinds": kinds, "operands": length, "accessor": f"o{j}", "raised": f"{type(e).__name__}: {str(e)[:120]}"}
+            have = [v] if k == SINGLE else ([] if v is None else [v]) if k == OPTIONAL else list(v)
+            if len(have) != len(want) or any(a is not b for a, b in zip(have, want)):
+                return {"definition kinds": kinds, "operands": length, "accessor": f"o{j}", "returned positions": [list(op.operands).index(x) for x in have],
+                        "segment of the legal split": list(range(pos, pos + n))}
+            pos += n
     return None
 
 
